@@ -7,6 +7,8 @@ set_option linter.unusedVariables false
 namespace CC.TST
 open CC
 
+variable {tr : Triple}
+
 /-! ### pointers -/
 
 theorem sub_append (t : Node) (p q : Path) : t.sub (p ++ q) = (t.sub p).sub q := by
@@ -643,7 +645,7 @@ theorem iterAll_eq (t : Table) (mem : Mem) : iterAll t mem = (t.root.entries.map
 
 /-- `remove_eow_node` never creates a node -/
 theorem sub_remAt_nil (t : Node) (p q : Path) (mem : Mem) (h : t.sub q = .nil) :
-    (t.remAt p mem).node.sub q = .nil := by
+    (t.remAt tr p mem).node.sub q = .nil := by
   induction t generalizing p q with
   | nil => simp only [Node.remAt]; exact h
   | node c d l m r ihl ihm ihr =>
@@ -660,19 +662,19 @@ theorem sub_remAt_nil (t : Node) (p q : Path) (mem : Mem) (h : t.sub q = .nil) :
                     · exact h
       | cons dp p =>
         cases dp <;> simp only [Node.remAt]
-        · rcases rebuild_cases c d (l.remAt p mem).node m r (l.remAt p mem) with g | g <;> rw [g.1]
+        · rcases rebuild_cases tr c d (l.remAt tr p mem).node m r (l.remAt tr p mem) with g | g <;> rw [g.1]
           · exact hnil _
           · cases dq <;> simp only [Node.sub] at h ⊢
             · exact ihl p q h
             · exact h
             · exact h
-        · rcases rebuild_cases c d l (m.remAt p mem).node r (m.remAt p mem) with g | g <;> rw [g.1]
+        · rcases rebuild_cases tr c d l (m.remAt tr p mem).node r (m.remAt tr p mem) with g | g <;> rw [g.1]
           · exact hnil _
           · cases dq <;> simp only [Node.sub] at h ⊢
             · exact h
             · exact ihm p q h
             · exact h
-        · rcases rebuild_cases c d l m (r.remAt p mem).node (r.remAt p mem) with g | g <;> rw [g.1]
+        · rcases rebuild_cases tr c d l m (r.remAt tr p mem).node (r.remAt tr p mem) with g | g <;> rw [g.1]
           · exact hnil _
           · cases dq <;> simp only [Node.sub] at h ⊢
             · exact h
@@ -682,7 +684,7 @@ theorem sub_remAt_nil (t : Node) (p q : Path) (mem : Mem) (h : t.sub q = .nil) :
 /-- pruning only touches the removed node and its ancestors: every existing node whose address is not
 a prefix of `p` keeps its whole subtree -/
 theorem sub_remAt_other (t : Node) (p q : Path) (mem : Mem) (hq : t.sub q ≠ .nil) (hpre : ¬ q <+: p) :
-    (t.remAt p mem).node.sub q = t.sub q := by
+    (t.remAt tr p mem).node.sub q = t.sub q := by
   induction t generalizing p q with
   | nil => cases q <;> simp [Node.sub] at hq
   | node c d l m r ihl ihm ihr =>
@@ -704,8 +706,8 @@ theorem sub_remAt_other (t : Node) (p q : Path) (mem : Mem) (hq : t.sub q ≠ .n
           · cases dq <;> rfl
       | cons dp p =>
         have key : ∀ (child : Node) (ih : ∀ (p q : Path), child.sub q ≠ .nil → ¬ q <+: p →
-              (child.remAt p mem).node.sub q = child.sub q) (same : dq = dp) (hc : child.sub q ≠ .nil),
-              (child.remAt p mem).node.sub q = child.sub q ∧ (child.remAt p mem).node ≠ .nil := by
+              (child.remAt tr p mem).node.sub q = child.sub q) (same : dq = dp) (hc : child.sub q ≠ .nil),
+              (child.remAt tr p mem).node.sub q = child.sub q ∧ (child.remAt tr p mem).node ≠ .nil := by
           intro child ih same hc
           have hpre' : ¬ q <+: p := by
             intro hp; apply hpre; subst same
@@ -714,7 +716,7 @@ theorem sub_remAt_other (t : Node) (p q : Path) (mem : Mem) (hq : t.sub q ≠ .n
           refine ⟨this, ?_⟩
           intro hn; rw [hn, hnil] at this; exact hc this.symm
         cases dp <;> simp only [Node.remAt]
-        · rcases rebuild_cases c d (l.remAt p mem).node m r (l.remAt p mem) with g | g <;> rw [g.1]
+        · rcases rebuild_cases tr c d (l.remAt tr p mem).node m r (l.remAt tr p mem) with g | g <;> rw [g.1]
           · obtain ⟨_, _, _, _, g2, g3, g4, _⟩ := g
             subst g3 g4
             cases dq <;> simp only [Node.sub] at hq ⊢
@@ -723,7 +725,7 @@ theorem sub_remAt_other (t : Node) (p q : Path) (mem : Mem) (hq : t.sub q ≠ .n
             · exact absurd (hnil q) hq
           · cases dq <;> simp only [Node.sub] at hq ⊢
             exact (key l ihl rfl hq).1
-        · rcases rebuild_cases c d l (m.remAt p mem).node r (m.remAt p mem) with g | g <;> rw [g.1]
+        · rcases rebuild_cases tr c d l (m.remAt tr p mem).node r (m.remAt tr p mem) with g | g <;> rw [g.1]
           · obtain ⟨_, _, _, _, g2, g3, g4, _⟩ := g
             subst g2 g4
             cases dq <;> simp only [Node.sub] at hq ⊢
@@ -732,7 +734,7 @@ theorem sub_remAt_other (t : Node) (p q : Path) (mem : Mem) (hq : t.sub q ≠ .n
             · exact absurd (hnil q) hq
           · cases dq <;> simp only [Node.sub] at hq ⊢
             exact (key m ihm rfl hq).1
-        · rcases rebuild_cases c d l m (r.remAt p mem).node (r.remAt p mem) with g | g <;> rw [g.1]
+        · rcases rebuild_cases tr c d l m (r.remAt tr p mem).node (r.remAt tr p mem) with g | g <;> rw [g.1]
           · obtain ⟨_, _, _, _, g2, g3, g4, _⟩ := g
             subst g2 g3
             cases dq <;> simp only [Node.sub] at hq ⊢
@@ -855,7 +857,7 @@ theorem filter_selfEntry (d : Option Entry) (q : Path) (hq : q ≠ []) :
 
 /-- **`remove_eow_node` removes exactly one entry from the enumeration**; no other node moves -/
 theorem entriesP_remAt (t : Node) (p : Path) (mem : Mem) (e : Entry) (hd : (t.sub p).data? = some e) :
-    (t.remAt p mem).node.entriesP = t.entriesP.filter (fun x => x.1 != p) := by
+    (t.remAt tr p mem).node.entriesP = t.entriesP.filter (fun x => x.1 != p) := by
   induction t generalizing p with
   | nil => cases p <;> simp [Node.sub, Node.data?] at hd
   | node c d l m r ihl ihm ihr =>
@@ -896,7 +898,7 @@ theorem entriesP_remAt (t : Node) (p : Path) (mem : Mem) (e : Entry) (hd : (t.su
     | cons dir p =>
       cases dir <;> simp only [Node.sub] at hd <;> simp only [Node.remAt]
       · have ih := ihl p hd
-        rcases rebuild_cases c d (l.remAt p mem).node m r (l.remAt p mem) with g | g <;> rw [g.1]
+        rcases rebuild_cases tr c d (l.remAt tr p mem).node m r (l.remAt tr p mem) with g | g <;> rw [g.1]
         · obtain ⟨_, _, _, _, g2, g3, g4, g5⟩ := g
           subst g3 g4 g5
           rw [g2] at ih
@@ -906,7 +908,7 @@ theorem entriesP_remAt (t : Node) (p : Path) (mem : Mem) (e : Entry) (hd : (t.su
             fo .M .L _ p (by decide), fo .R .L _ p (by decide)]
           cases d <;> simp
       · have ih := ihm p hd
-        rcases rebuild_cases c d l (m.remAt p mem).node r (m.remAt p mem) with g | g <;> rw [g.1]
+        rcases rebuild_cases tr c d l (m.remAt tr p mem).node r (m.remAt tr p mem) with g | g <;> rw [g.1]
         · obtain ⟨_, _, _, _, g2, g3, g4, g5⟩ := g
           subst g2 g4 g5
           rw [g3] at ih
@@ -916,7 +918,7 @@ theorem entriesP_remAt (t : Node) (p : Path) (mem : Mem) (e : Entry) (hd : (t.su
             fo .L .M _ p (by decide), fo .R .M _ p (by decide)]
           cases d <;> simp
       · have ih := ihr p hd
-        rcases rebuild_cases c d l m (r.remAt p mem).node (r.remAt p mem) with g | g <;> rw [g.1]
+        rcases rebuild_cases tr c d l m (r.remAt tr p mem).node (r.remAt tr p mem) with g | g <;> rw [g.1]
         · obtain ⟨_, _, _, _, g2, g3, g4, g5⟩ := g
           subst g2 g3 g5
           rw [g4] at ih
@@ -1039,25 +1041,25 @@ theorem iterRemove_ok (t : Table) (it : Iter) (wantOut : Bool) (mem : Mem) (todo
     (p : Path) (e : Entry) (hat : IterAt t.root it todo) (hadv : it.adv = false) (hcur : it.cur = some p)
     (hd : (t.root.sub p).data? = some e) :
     (iterRemove t it wantOut mem).1 = .ok ∧ (iterRemove t it wantOut mem).2.1 = some e.2 ∧
-    (iterRemove t it wantOut mem).2.2.1 = ⟨decSize t.size, (t.root.remAt p mem).node⟩ ∧
-    (iterRemove t it wantOut mem).2.2.2.2 = (t.root.remAt p mem).mem ∧
-    (t.root.remAt p mem).node.entriesP = t.root.entriesP.filter (fun x => x.1 != p) ∧
-    IterOk (t.root.remAt p mem).node (iterRemove t it wantOut mem).2.2.2.1 todo := by
+    (iterRemove t it wantOut mem).2.2.1 = { t with size := decSize t.size, root := (t.root.remAt t.triple p mem).node } ∧
+    (iterRemove t it wantOut mem).2.2.2.2 = (t.root.remAt t.triple p mem).mem ∧
+    (t.root.remAt t.triple p mem).node.entriesP = t.root.entriesP.filter (fun x => x.1 != p) ∧
+    IterOk (t.root.remAt t.triple p mem).node (iterRemove t it wantOut mem).2.2.2.1 todo := by
   -- where the iterator stands
   have htodo : todo = rest t.root p.reverse := by
     cases hat with
     | init h1 h2 => rw [h1] at hcur; cases hcur
     | «at» rq h0 h1 h2 => rw [h1] at hcur; simp at hcur; rw [← hcur]; simp
     | done h0 h => rw [h0] at hcur; cases hcur
-  have hfil := entriesP_remAt t.root p mem e hd
+  have hfil := entriesP_remAt (tr := t.triple) t.root p mem e hd
   have hnext := iterNext_at t it mem todo hat hadv
   have hnm : (resOf t.root it mem todo (endRes it mem)).mem = mem := by cases todo <;> rfl
-  have hrem : iterRemove t it wantOut mem = (.ok, some e.2, ⟨decSize t.size, (t.root.remAt p mem).node⟩,
+  have hrem : iterRemove t it wantOut mem = (.ok, some e.2, { t with size := decSize t.size, root := (t.root.remAt t.triple p mem).node },
       { (resOf t.root it mem todo (endRes it mem)).it with
           adv := true, nextStat := (resOf t.root it mem todo (endRes it mem)).st },
-      (t.root.remAt p mem).mem) := by
+      (t.root.remAt t.triple p mem).mem) := by
     unfold iterRemove
-    simp only [hcur, hd]
+    simp only [hcur, hd, hadv, Bool.false_eq_true, if_false]
     have : (if wantOut = true then mem.check (some e).isSome else mem) = mem := by cases wantOut <;> simp
     rw [this, hnext, hnm]; rfl
   rw [hrem]
@@ -1083,17 +1085,17 @@ theorem iterRemove_ok (t : Table) (it : Iter) (wantOut : Bool) (mem : Mem) (todo
         simpa using this
       have hqn : t.root.sub q ≠ .nil := by
         intro hn; have := ht.1; rw [hn] at this; simp [Node.data?] at this
-      have hsub := sub_remAt_other t.root p q mem hqn hnp
+      have hsub := sub_remAt_other (tr := t.triple) t.root p q mem hqn hnp
       -- the enumeration of the pruned tree
       obtain ⟨pre, hpre⟩ := entriesP_split t.root p e hd
       rw [← htodo] at hpre
       have hdist := entriesP_distinct t.root
-      have hE' : (t.root.remAt p mem).node.entriesP = pre ++ (q, eq) :: tl := by
+      have hE' : (t.root.remAt t.triple p mem).node.entriesP = pre ++ (q, eq) :: tl := by
         rw [hfil, hpre]
         have := filter_split pre ((q, eq) :: tl) (p, e) (by rw [← hpre]; exact hdist)
         simpa using this
-      obtain ⟨pre', hpre'⟩ := entriesP_split (t.root.remAt p mem).node q eq (by rw [hsub]; exact ht.1)
-      have huniq := split_unique _ (entriesP_distinct (t.root.remAt p mem).node) pre pre' tl _ (q, eq) (q, eq)
+      obtain ⟨pre', hpre'⟩ := entriesP_split (t.root.remAt t.triple p mem).node q eq (by rw [hsub]; exact ht.1)
+      have huniq := split_unique _ (entriesP_distinct (t.root.remAt t.triple p mem).node) pre pre' tl _ (q, eq) (q, eq)
         hE' hpre' rfl
       refine ⟨rfl, rfl, by rw [hsub]; exact ht.1, rfl, ?_⟩
       rw [huniq.2.2]
@@ -1104,9 +1106,15 @@ theorem iterRemove_ok (t : Table) (it : Iter) (wantOut : Bool) (mem : Mem) (todo
 
 /-- `iter_remove` before the first `iter_next`, after the end of the iteration: `CC_ERR_KEY_NOT_FOUND`,
 nothing changes (C16) -/
-theorem iterRemove_inert (t : Table) (it : Iter) (wantOut : Bool) (mem : Mem) (h : it.cur = none) :
+theorem iterRemove_inert (t : Table) (it : Iter) (wantOut : Bool) (mem : Mem) (h : it.cur = none ∨ it.adv = true) :
     iterRemove t it wantOut mem = (.errKeyNotFound, none, t, it, mem) := by
-  simp [iterRemove, h]
+  unfold iterRemove
+  cases hc : it.cur with
+  | none => rfl
+  | some p =>
+    rcases h with h | h
+    · rw [hc] at h; cases h
+    · simp [h]
 
 /-! ### tying node addresses to keys -/
 
@@ -1207,22 +1215,23 @@ theorem Table.iterRemove_spec (hc : CmpLaw cmp) (t : Table) (it : Iter) (wantOut
     (iterRemove t it wantOut mem).2.2.1.Good cmp ∧
     (∀ k, (iterRemove t it wantOut mem).2.2.1.abs.get k = (t.abs.remove e.1).get k) ∧
     (iterRemove t it wantOut mem).2.2.1.Owns (iterRemove t it wantOut mem).2.2.2.2 ∧
-    (iterRemove t it wantOut mem).2.2.2.2.live + t.root.owned =
-      mem.live + (iterRemove t it wantOut mem).2.2.1.root.owned ∧
+    (iterRemove t it wantOut mem).2.2.2.2.liveT t.triple + t.root.owned =
+      mem.liveT t.triple + (iterRemove t it wantOut mem).2.2.1.root.owned ∧
     (iterRemove t it wantOut mem).2.2.2.2.fault = mem.fault ∧
     IterOk (iterRemove t it wantOut mem).2.2.1.root (iterRemove t it wantOut mem).2.2.2.1 todo ∧
-    (iterRemove t it wantOut mem).2.2.2.1.adv = true := by
+    (iterRemove t it wantOut mem).2.2.2.1.adv = true ∧
+    (iterRemove t it wantOut mem).2.2.1.triple = t.triple := by
   obtain ⟨⟨hs, hp, ho⟩, hko⟩ := hg
   obtain ⟨h1, h2, h3, h4, h5, h6⟩ := iterRemove_ok t it wantOut mem todo p e hat hadv hcur hd
   obtain ⟨hk, hf⟩ := findPath_of_data hc t.root ho hko p e hd
-  have q := remAt_spec t.root p mem e hd (by unfold Table.Owns at hl; omega)
-  obtain ⟨q1, q2, q3, q4, q5, q6⟩ := q
-  have ho' := ordered_remAt (cmp := cmp) t.root p mem ho
-  have hko' := keysOk_remAt hc t.root e.1 p mem e hk hf hd ho hko
+  have q := remAt_spec t.triple t.root p mem e hd (by unfold Table.Owns at hl; omega)
+  obtain ⟨q1, q2, q3, q4, q6⟩ := q
+  have ho' := ordered_remAt (tr := t.triple) (cmp := cmp) t.root p mem ho
+  have hko' := keysOk_remAt (tr := t.triple) hc t.root e.1 p mem e hk hf hd ho hko
   have hadv' : (iterRemove t it wantOut mem).2.2.2.1.adv = true := by
-    simp [iterRemove, hcur]
+    simp [iterRemove, hcur, hadv]
   rw [h3, h4] at *
-  refine ⟨h1, h2, ⟨⟨?_, pruned_remAt _ _ _ hp, ho'⟩, hko'⟩, ?_, ?_, q3, q4, h6, hadv'⟩
+  refine ⟨h1, h2, ⟨⟨?_, pruned_remAt _ _ _ hp, ho'⟩, hko'⟩, ?_, ?_, q3, q4, h6, hadv', rfl⟩
   · simp only [decSize]; rw [hs]; split <;> omega
   · intro k
     rw [abs_get hc _ ho' hko', SpecLemmas.get_remove, abs_get hc t ho hko]
